@@ -180,7 +180,10 @@ Theorem uint64_cast_refuted :
 Proof.
   exists [], ex_big_set. split; [|split].
   - split. constructor. vm_compute. congruence.
-  - cbn. repeat split; try (vm_compute; congruence). constructor.
+  - unfold wf_obj, ex_big_set. cbn [os_nonce os_members]. split; [|split].
+    + split; vm_compute; congruence.
+    + constructor.
+    + vm_compute. reflexivity.
   - intro H. vm_compute in H. discriminate H.
 Qed.
 
@@ -192,15 +195,15 @@ Definition table_args (t : option (list narg)) (gid : list Z) (o : obj) : option
 (* the hand-written Go argument tuple is the interpretation of the table generated from types.go + ABI JSON *)
 Theorem go_args_from_table : forall gid o,
   table_args (norm_go_table (go_table (kind_of o))) gid o = Some (go_checkpoint_args gid o).
-Proof. intros gid [s|b|c]; vm_compute; reflexivity. Qed.
+Proof. intros gid [s|b|c]; cbv -[go_u64 b32_of_bytes map tag_of]; reflexivity. Qed.
 
 Theorem tron_args_from_table : forall gid o,
   table_args (norm_go_table (tron_table (kind_of o))) gid o = Some (go_checkpoint_args gid o).
-Proof. intros gid [s|b|c]; vm_compute; reflexivity. Qed.
+Proof. intros gid [s|b|c]; cbv -[go_u64 b32_of_bytes map tag_of]; reflexivity. Qed.
 
 Theorem sol_args_from_table : forall gid o,
   table_args (norm_sol_table (kind_of o) (sol_table (kind_of o))) gid o = Some (sol_checkpoint_args gid o).
-Proof. intros gid [s|b|c]; vm_compute; reflexivity. Qed.
+Proof. intros gid [s|b|c]; cbv -[go_u64 b32_of_bytes map tag_of]; reflexivity. Qed.
 
 (* same sources, same ABI types, same order; the only difference is the int64 cast on the Go side *)
 Theorem tables_agree : forall k,
@@ -370,28 +373,19 @@ Proof.
     f_equal. apply IH; auto. lia.
 Qed.
 
-Lemma firstn_pad_inj : forall (a b : list Z) n,
-  (length a <= n)%nat -> (length b <= n)%nat -> ~ In 0 a -> ~ In 0 b ->
-  firstn n (a ++ repeat 0 n) = firstn n (b ++ repeat 0 n) -> a = b.
+Lemma firstn_pad_inj : forall (a b : list Z) n m m',
+  (length a <= n)%nat -> (length b <= n)%nat -> (n <= length a + m)%nat -> (n <= length b + m')%nat ->
+  ~ In 0 a -> ~ In 0 b ->
+  firstn n (a ++ repeat 0 m) = firstn n (b ++ repeat 0 m') -> a = b.
 Proof.
-  induction a as [|x a IH]; intros [|y b] n La Lb Na Nb H.
+  induction a as [|x a IH]; intros [|y b] n m m' La Lb Ma Mb Na Nb H; cbn [length app] in *.
   - reflexivity.
-  - exfalso. destruct n; simpl in *; [lia|]. injection H as H _. apply Nb. left. auto.
-  - exfalso. destruct n; simpl in *; [lia|]. injection H as H _. apply Na. left. auto.
-  - destruct n; simpl in *; [lia|]. injection H as -> H. f_equal.
-    apply (IH b n); try lia; try (intro; apply Na; right; assumption); try (intro; apply Nb; right; assumption).
-    (* repeat 0 (S n) = 0 :: repeat 0 n: the extra trailing zero does not matter under firstn n *)
-    assert (T : forall (l : list Z), (length l <= n)%nat -> firstn n (l ++ 0 :: repeat 0 n) = firstn n (l ++ repeat 0 n)).
-    { clear. intros l. revert n. induction l as [|z l IHl]; intros n L.
-      - simpl. clear L. induction n; simpl; auto. f_equal. exact IHn.
-      - destruct n; simpl in *; [lia|]. f_equal.
-        assert (L' : (length l <= n)%nat) by lia.
-        specialize (IHl n L').
-        (* l ++ 0 :: repeat 0 (S n) versus l ++ repeat 0 (S n): both have at least n elements from l ++ zeros *)
-        clear IHl. revert n L L'. induction l as [|w l IHl2]; intros n L L'.
-        + simpl. clear. induction n; simpl; auto. f_equal. exact IHn.
-        + destruct n; simpl in *; [lia|]. f_equal. apply IHl2; lia. }
-    rewrite <- !T by lia. exact H.
+  - exfalso. destruct n; [lia|]. destruct m; [lia|]. cbn [repeat firstn] in H. injection H as H _.
+    apply Nb. left. auto.
+  - exfalso. destruct n; [lia|]. destruct m'; [lia|]. cbn [repeat firstn] in H. injection H as H _.
+    apply Na. left. auto.
+  - destruct n; [lia|]. cbn [firstn] in H. injection H as -> H. f_equal.
+    apply (IH b n m m'); try lia; auto; intro I; [apply Na|apply Nb]; right; exact I.
 Qed.
 
 Theorem gravity_id_injective : forall g g', wf_gid g -> wf_gid g' -> ~ In 0 g -> ~ In 0 g' ->
@@ -401,7 +395,7 @@ Proof.
   assert (Z0 : Forall is_byte (repeat 0 32)).
   { apply Forall_forall. intros x Hx. apply repeat_spec in Hx. subst. unfold is_byte. lia. }
   apply be_val_inj_len in H.
-  - apply (firstn_pad_inj g g' 32%nat); auto; lia.
+  - apply (firstn_pad_inj g g' 32%nat 32%nat 32%nat); auto; lia.
   - rewrite !firstn_length, !app_length, !repeat_length. lia.
   - apply Forall_forall. intros x Hx. apply firstn_In in Hx. apply in_app_or in Hx. rewrite Forall_forall in F, Z0. destruct Hx; auto.
   - apply Forall_forall. intros x Hx. apply firstn_In in Hx. apply in_app_or in Hx. rewrite Forall_forall in F', Z0. destruct Hx; auto.
@@ -543,7 +537,10 @@ Section ConfirmProofs.
   Corollary confirm_unique : forall ops st k c1 c2,
     NoDup (map fst (st_conf st)) ->
     In (k, c1) (st_conf (run recover ops st)) -> In (k, c2) (st_conf (run recover ops st)) -> c1 = c2.
-  Proof. intros. eapply NoDup_keys_functional; eauto. apply at_most_one_confirm. assumption. Qed.
+  Proof.
+    intros ops st k c1 c2 N I1 I2.
+    exact (NoDup_keys_functional _ k c1 c2 (at_most_one_confirm ops st N) I1 I2).
+  Qed.
 
   (* every stored confirm entered through an accepted confirm message, in a state in which the
      acceptance rule held for it *)
